@@ -558,6 +558,66 @@ def run_dict_schedule(ctx, rng, nthreads, cycles):
              key=[plan, case["schedule"]], nontrivial=waited)
 
 
+def wsgi_entry_level(ctx):
+    """the entry point for external WSGI servers (`radicale.application`) builds the one Application of the process on the first request;
+    several first requests at once (a threaded server right after start) must end up with one Application - hence one storage object and,
+    with the in-process lock of multifilesystem_nolock, one lock.  Real threads; the construction is stretched so that they overlap"""
+    import io
+    import shutil
+    import tempfile
+    import threading
+    import time
+    import wsgiref.util
+    import radicale
+    from radicale.app import Application
+    for rnd in range(ctx.n(3, 20)):
+        nthreads = 2 + rnd % 4
+        folder = tempfile.mkdtemp(prefix="rverif-c11w-")
+        conf_path = folder + "/config"
+        with open(conf_path, "w") as f:
+            f.write("[storage]\ntype = multifilesystem_nolock\nfilesystem_folder = %s/store\n[auth]\ntype = none\n[logging]\nlevel = critical\n" % folder)
+        built = []
+        orig_init = Application.__init__
+
+        def slow_init(self, configuration):
+            time.sleep(0.05)
+            orig_init(self, configuration)
+            built.append(self)
+        saved = (radicale._application_instance, radicale._application_config_path)
+        radicale._application_instance, radicale._application_config_path = None, None
+        Application.__init__ = slow_init
+        served = []
+        try:
+            barrier = threading.Barrier(nthreads)
+
+            def first_request():
+                environ = {"REQUEST_METHOD": "OPTIONS", "PATH_INFO": "/", "RADICALE_CONFIG": conf_path, "wsgi.errors": io.StringIO()}
+                wsgiref.util.setup_testing_defaults(environ)
+                barrier.wait(timeout=10)
+                list(radicale.application(environ, lambda st, hd: served.append(st)))
+            ts = [threading.Thread(target=first_request, daemon=True) for _ in range(nthreads)]
+            for t in ts:
+                t.start()
+            for t in ts:
+                t.join(timeout=30)
+            storages = {id(a._storage) for a in built}
+            locks = {id(a._storage._lock) for a in built if hasattr(a._storage, "_lock")}
+        finally:
+            Application.__init__ = orig_init
+            radicale._application_instance, radicale._application_config_path = saved
+            from common import quiet_radicale
+            quiet_radicale()
+            shutil.rmtree(folder, ignore_errors=True)
+        case = {"first_requests_at_once": nthreads, "applications_built": len(built), "storage_objects": len(storages), "storage_locks": len(locks),
+                "answers": served}
+        ctx.case("wsgi-entry:%d" % nthreads, sample=case, key=["wsgi-entry", rnd], nontrivial=True)
+        if len(built) != 1 or len(locks) > 1:
+            ctx.violation("%d requests arriving together at the WSGI entry point built %d Application objects (%d storage locks): requests "
+                          "served by different ones do not exclude each other" % (nthreads, len(built), len(locks)), case)
+        if len(served) != nthreads:
+            ctx.violation("only %d of %d first requests were answered" % (len(served), nthreads), case)
+
+
 def run(ctx):
     ctx.extra["rule"] = ("random schedules of 2-5 logical threads x 1-3 acquire/release cycles in mode r or w (2 keys for the keyed lock), one "
                          "synchronisation operation per step; a case = (plan, schedule); non-trivial = some thread had to wait")
@@ -571,3 +631,4 @@ def run(ctx):
         run_flock_schedule(ctx, rng, rng.randint(2, 5), rng.randint(1, 3))
     for i in range(n):
         run_dict_schedule(ctx, rng, rng.randint(2, 5), rng.randint(1, 3))
+    wsgi_entry_level(ctx)
